@@ -46,12 +46,14 @@ def menu(pair):
         if "kids" in names:
             evs += [("kids_append", n), ("kids_insert0", n), ("kids_pop", n),
                     ("kids_setslice", n), ("kids_assign", n),
-                    ("kids_del0", n)]
+                    ("kids_del0", n), ("kids_reverse", n),
+                    ("kids_reassign_tail", n)]
         if "kmap" in names:
             evs += [("kmap_set", n, "a"), ("kmap_set", n, "b"),
                     ("kmap_del", n, "a"), ("kmap_update2", n)]
     evs.append(("unregister",))
     evs.append(("gc_owner_b",))
+    evs.append(("unregister_other",))
     return evs
 
 
@@ -95,6 +97,16 @@ class World:
         self.root.on_trait_change(self.owner_b.m, PAIRS[pair][0])
         self.root.observe(oh, PAIRS[pair][1])
         self.registered = True
+        # an unrelated registration under a different extended name on the
+        # same object; removing it must not disturb the others
+        self.other_calls = []
+        oc = self.other_calls
+
+        def other(obj, name, old, new):
+            oc.append(name)
+        self.other = other
+        self.root.on_trait_change(other, "lazy.tagged")
+        self.other_registered = True
 
     def fresh(self):
         n = self.cls()
@@ -129,6 +141,8 @@ def enabled(w, ev):
         return w.registered
     if k == "gc_owner_b":
         return w.owner_b is not None and w.registered
+    if k == "unregister_other":
+        return w.other_registered
     if ev[1] >= len(w.nodes):
         return False
     if len(w.nodes) > 7 and k not in ("kids_pop", "kids_del0", "kmap_del",
@@ -140,6 +154,8 @@ def enabled(w, ev):
         return d.get("child") is not None
     if k in ("kids_pop", "kids_del0"):
         return len(d.get("kids", ())) >= 1
+    if k in ("kids_reverse", "kids_reassign_tail"):
+        return len(d.get("kids", ())) >= 2
     if k == "kmap_del":
         return ev[2] in d.get("kmap", {})
     if k == "kmap_update2":
@@ -164,12 +180,22 @@ def apply(w, ev):
         w.owner_b = None
         gc.collect()
         return ("none", None)
+    if k == "unregister_other":
+        w.root.on_trait_change(w.other, "lazy.tagged", remove=True)
+        w.other_registered = False
+        gc.collect()
+        return ("none", None)
     o = w.nodes[ev[1]]
     if k == "child":
         old = o.__dict__.get("child")
         o.child = w.fresh() if ev[2] == "fresh" else None
         w.equal_link = w.eq and old is not None and ev[2] == "fresh"
         return ("link", (o, "child"))
+    if k == "kids_reassign_tail":
+        # a new list value that reuses current members
+        o.kids = list(o.kids[1:])
+        w.equal_link = False
+        return ("link", (o, "kids"))
     if k == "kids_assign":
         old = o.__dict__.get("kids")
         o.kids = [w.fresh(), w.fresh()]
@@ -187,6 +213,8 @@ def apply(w, ev):
             del c[0]
         elif k == "kids_setslice":
             c[:] = [w.fresh()]
+        elif k == "kids_reverse":
+            c.reverse()
         return ("container", c)
     if k == "kmap_set":
         c = o.kmap
@@ -340,7 +368,7 @@ def run_history(ctx, pair, hist, eq=False):
                 return False, None
     ok = probe(ctx, w, hist)
     key = (pair, eq, tree_shape(w), G.fingerprint(w.nodes), w.registered,
-           w.owner_b is None)
+           w.owner_b is None, w.other_registered)
     return ok, key
 
 
